@@ -396,6 +396,22 @@ impl Report {
             println!("  clause: {}\n  signature: {}\n  detail: {}", v.clause, v.signature, clip(&v.detail, 1500));
             printed += 1;
         }
+        if !new_violations.is_empty() {
+            // overview: violations grouped by the first three signature segments, with one witness each
+            let mut groups: Vec<(String, usize, String)> = Vec::new();
+            for v in &new_violations {
+                let key: String = v.signature.split('/').take(3).collect::<Vec<_>>().join("/");
+                if let Some(g) = groups.iter_mut().find(|g| g.0 == key) {
+                    g.1 += 1;
+                } else {
+                    groups.push((key, 1, clip(&v.detail.replace('\n', " | "), 260)));
+                }
+            }
+            println!("violation classes ({}):", groups.len());
+            for (k, n, w) in groups.iter().take(80) {
+                println!("  {n:>7}  {k}    e.g. {w}");
+            }
+        }
         for (sig, what, n) in &known_hit {
             println!(
                 "KNOWN-FINDING: property={} sig={} {} ({} case(s) this run)",
